@@ -151,6 +151,60 @@ func genModel(p *simkit.Plan, r *simkit.Rand, tier string) {
 	}
 }
 
+// genLinks draws the C16 workload: symbolic links whose targets are built
+// from the tokens {name, ".", "..", empty} joined by "/", plus the rejected
+// classes, planted at depths 0..3.
+func genLinks(p *simkit.Plan, r *simkit.Rand, tier string) {
+	c := p.Cfg
+	c["mode"] = int64(simkit.Pick(r, []int{0, 1, 3}))
+	c["sched_sticky"] = int64(simkit.Pick(r, []int{0, 60}))
+	if p.Scenario == "links-mixed" {
+		c["model_alpha"] = 1
+		c["mode"] = int64(simkit.Pick(r, []int{0, 1, 2, 3}))
+	}
+	c["fs_gates"] = 0
+	side := func() string {
+		if p.Scenario == "links-mixed" {
+			return "alpha"
+		}
+		return simkit.Pick(r, []string{"alpha", "beta"})
+	}
+	target := func() string {
+		switch r.Intn(12) {
+		case 0:
+			return "/" + simkit.Pick(r, []string{"etc", "x/y"})
+		case 1:
+			return simkit.Pick(r, []string{"c:x", "x\\y", "x:"})
+		case 2:
+			return strings.Repeat("z", simkit.Pick(r, []int{246, 247, 248}))
+		}
+		n := r.Range(1, 6)
+		toks := make([]string, n)
+		for i := range toks {
+			toks[i] = simkit.Pick(r, []string{"x", "y", ".", "..", "..", ""})
+		}
+		return strings.Join(toks, "/")
+	}
+	actor := "init"
+	for _, dir := range []string{"a/b/c", "x/y"} {
+		p.Ops = append(p.Ops, simkit.Op{Actor: actor, Kind: "mkdir", S: []string{"alpha", dir}})
+		if p.Scenario != "links-mixed" {
+			p.Ops = append(p.Ops, simkit.Op{Actor: actor, Kind: "mkdir", S: []string{"beta", dir}})
+		}
+	}
+	n := r.Range(2, 10)
+	for i := 0; i < n; i++ {
+		if i > n/2 {
+			actor = "user"
+		}
+		where := simkit.Pick(r, []string{"l", "a/l", "a/b/l", "a/b/c/l", "m", "a/m"})
+		p.Ops = append(p.Ops, simkit.Op{Actor: actor, Kind: "link", S: []string{side(), where, target()}})
+		if r.Chance(1, 4) {
+			p.Ops = append(p.Ops, simkit.Op{Actor: "client", Kind: "flush", N: []int64{0}})
+		}
+	}
+}
+
 func cleanDataDir(dir string) {
 	os.RemoveAll(dir)
 	os.MkdirAll(dir, 0o700)
@@ -176,7 +230,10 @@ func execSession(t *testing.T, plan *simkit.Plan) *simkit.Result {
 			preserve: map[string]bool{"alpha": true, "beta": true}, userSeq: map[string]int64{},
 			inflightEP: map[string]int{}, transInFlight: map[string]int{}, scanCount: map[string]int{}, scanStarts: map[string][]int64{},
 			lastScan: map[string]*scanRecord{}, outcomeNo: map[string]int{}, transCallNo: map[string]int{},
-			ideal: true, pending: map[string][]pendingResult{},
+			ideal: true, pending: map[string][]pendingResult{}, modelSide: map[string]bool{},
+		}
+		if plan.C("model_alpha") == 1 {
+			h.modelSide["alpha"] = true
 		}
 		current = h
 		defer func() { current = nil }()
@@ -186,7 +243,7 @@ func execSession(t *testing.T, plan *simkit.Plan) *simkit.Result {
 		case 2:
 			h.preserve["beta"] = false
 		}
-		if strings.HasPrefix(plan.Scenario, "disk") {
+		if strings.HasPrefix(plan.Scenario, "disk") || strings.HasPrefix(plan.Scenario, "links") {
 			if err := h.setupDisk(); err != nil {
 				panic(err)
 			}
